@@ -73,3 +73,104 @@ From AM Require Gen.OutputWiring.
 Theorem C10_output_wiring_from_source : Gen.OutputWiring.output_wiring_ok = true.
 Proof. vm_compute. reflexivity. Qed.
 Print Assumptions C10_output_wiring_from_source.
+
+(* ================= the sshd pipeline composed with the correlator: [wf_run] discharged =================
+   Model/PipelineSshd.v computes the sshd side of a run instead of assuming it: a list of records (pid token,
+   message bytes, whether the writer accepts, whether the correlator takes the login, the handler's clock) is
+   run SEQUENTIALLY through Model/SshdProc.v's [process] — the function C05/C06/C11/C17 are about, whose
+   handlers are tied to the source by [C10_all_handlers_from_source] above.  Per record: its successful writes go
+   to the shared output, then each forwarded login is handed over on the unbuffered channel — a rendez-vous that
+   completes only while Auditd.Read's loop holds no login; the loop then calls RemoteLogin ([MReader]); the sshd
+   goroutine may already be writing the next record's event by then (the model has that interleaving), but its
+   next hand-off waits.  The other correlator calls (audit events, the two cleanups) interleave freely.  A
+   schedule (list of moves) picks who moves; disabled moves are skipped; every prefix is a run.
+   ABSTRACTION: the login of record number k is [abs_login k at r] (id = k, pid = the forwarded PID, validity =
+   forwarded with a non-empty credential id); [ELogin l] stands for the event record [l_id l] wrote
+   ([C10_login_entries_are_line_writes]). *)
+From AM Require Import Lib.Bytes Model.SshdProc Model.PipelineSshd Proofs.PipelineSshdLemmas.
+
+(* the hypothesis of C10_causal is a THEOREM about combined runs: it follows from C05_forward_after_write
+   (a forward only with a preceding successful write of the same call) and the sequential order of the calls *)
+Theorem C10_combined_run_wf : forall (c : cfg) (ins : list sinput) (aud : list aop) (sched : list move),
+  wf_run (acts_of c ins aud sched).
+Proof. exact combined_run_wf. Qed.
+Print Assumptions C10_combined_run_wf.
+
+(* For EVERY list of sshd records (any bytes, any writer / hand-off outcome per record), EVERY list of audit
+   events and cleanups, EVERY schedule: whenever a UserAction carrying login l's identity is appended to the
+   output, the UserLogin of l is already there.  No hypothesis. *)
+Theorem C10_causal_combined : forall (c : cfg) (ins : list sinput) (aud : list aop) (sched : list move),
+  forall pre l e post, plog (acts_of c ins aud sched) = pre ++ EAction l e :: post -> In (ELogin l) pre.
+Proof. exact causal_combined. Qed.
+Print Assumptions C10_causal_combined.
+
+Theorem C10_once_combined : forall (c : cfg) (ins : list sinput) (aud : list aop) (sched : list move),
+  flat_map (fun x => match x with EAction l e => [(l, e)] | ELogin _ => [] end) (plog (acts_of c ins aud sched))
+  = outs (tracker_hist (acts_of c ins aud sched)).
+Proof. exact once_combined. Qed.
+Print Assumptions C10_once_combined.
+
+(* what the abstract entries stand for: [ELogin l] in the output of a combined run is the event that record
+   number [l_id l] wrote (that call did write, successfully), l being exactly that call's abstraction *)
+Theorem C10_login_entries_are_line_writes : forall c ins aud sched l,
+  In (ELogin l) (plog (acts_of c ins aud sched)) ->
+  exists i, nth_error ins (l_id l) = Some i /\ l = abs_login (l_id l) (i_at i) (run_line c i) /\
+            written (run_line c i) <> [].
+Proof. exact login_entries_are_line_writes. Qed.
+Print Assumptions C10_login_entries_are_line_writes.
+
+(* the logins the correlator receives are an initial segment of those the sshd goroutine forwards, in record
+   order; ids never repeat; a delivered login is the ONE login its record forwarded, that record wrote exactly
+   that login's event, and the login's PID is the record's pid token as strconv.Atoi reads it *)
+Theorem C10_deliveries_prefix : forall c ins aud sched,
+  exists rest, deliveries (acts_of c ins aud sched) ++ rest = handoffs (sshd_acts c ins).
+Proof. exact deliveries_prefix. Qed.
+Print Assumptions C10_deliveries_prefix.
+
+Theorem C10_delivered_ids_distinct : forall c ins aud sched,
+  NoDup (map l_id (deliveries (acts_of c ins aud sched))).
+Proof. exact delivered_ids_distinct. Qed.
+Print Assumptions C10_delivered_ids_distinct.
+
+Theorem C10_delivered_is_forwarded : forall c ins aud sched l,
+  In l (deliveries (acts_of c ins aud sched)) ->
+  exists i f, nth_error ins (l_id l) = Some i /\ r_forwards (run_line c i) = [f] /\
+              written (run_line c i) = [f_src f] /\ l = abs_login (l_id l) (i_at i) (run_line c i) /\
+              atoi (i_tok i) = Some (l_pid l).
+Proof. exact delivered_is_forwarded. Qed.
+Print Assumptions C10_delivered_is_forwarded.
+
+(* the other correlator calls happen in their order, each at most once *)
+Theorem C10_audit_part_prefix : forall c ins aud sched,
+  exists rest, audit_part (acts_of c ins aud sched) ++ rest = map pact_of_aop aud.
+Proof. exact audit_part_prefix. Qed.
+Print Assumptions C10_audit_part_prefix.
+
+(* Non-vacuity: two records — a failed password (written, nothing forwarded) and an accepted password login of
+   pid 4242 (written, forwarded) — and an audit session 7 opened by pid 4242: LOGIN record, one further record,
+   CRED_DISP.  Schedule: the LOGIN record arrives first and is held; both records are written; the hand-off;
+   the further record arrives BEFORE RemoteLogin runs (still held); RemoteLogin flushes both; the disposal
+   record.  Output: UserLogin(record 0), UserLogin(record 1), then the three UserActions of record 1's login. *)
+From Coq Require Import String.
+Example C10_combined_example :
+  let c := {| c_node := s2l "n"%string; c_mid := s2l "m"%string |} in
+  let ins := [ {| i_tok := s2l "4100"%string; i_line := s2l "Failed password for bob from 10.0.0.9 port 4711 ssh2"%string;
+                  i_wok := true; i_ready := true; i_at := 10 |};
+               {| i_tok := s2l "4242"%string; i_line := s2l "Accepted password for bob from 10.0.0.9 port 4712 ssh2"%string;
+                  i_wok := true; i_ready := true; i_at := 20 |} ] in
+  let e i t := {| a_id := i; a_ses := SId 7; a_type := t; a_pid := Some 4242%Z |} in
+  let aud := [AAudit (e 0 TLogin) 21; AAudit (e 1 (TOther 2)) 23; AAudit (e 2 TCredDisp) 25] in
+  let sched := [MAudit; MSshd; MSshd; MSshd; MAudit; MReader 0; MAudit] in
+  let acts := acts_of c ins aud sched in
+  map (fun a => match a with PWrite l => (0, l_id l) | PDeliver l _ => (1, l_id l) | PAudit ev _ => (2, a_id ev)
+                           | _ => (3, 0) end) acts
+    = [(2, 0); (0, 0); (0, 1); (2, 1); (1, 1); (2, 2)] /\
+  map (fun x => match x with ELogin l => (0, l_id l, 0) | EAction l ev => (1, l_id l, a_id ev) end) (plog acts)
+    = [(0, 0, 0); (0, 1, 0); (1, 1, 0); (1, 1, 1); (1, 1, 2)] /\
+  map (fun l => (l_id l, l_pid l, l_valid l)) (deliveries acts) = [(1, 4242%Z, true)] /\
+  (* a blocked hand-off: with the reader still holding record 1's login nothing of the sshd side is lost,
+     and a run that ends before RemoteLogin emits no UserAction at all *)
+  map (fun x => match x with ELogin l => (0, l_id l, 0) | EAction l ev => (1, l_id l, a_id ev) end)
+      (plog (acts_of c ins aud [MAudit; MSshd; MSshd; MSshd; MAudit; MAudit]))
+    = [(0, 0, 0); (0, 1, 0)].
+Proof. vm_compute. repeat split; reflexivity. Qed.
